@@ -20,4 +20,18 @@ theorem isValid_false_iff (hr : HashRange) : hr.isValid = false ↔ hr.upper ≤
   have := isValid_iff hr
   cases h : hr.isValid <;> simp [h] at this ⊢ <;> omega
 
+theorem isValid_spec (hr : HashRange) : hr.isValid = true ↔ 0 < hr.upper ∧ hr.lower < hr.upper := by
+  rw [isValid_iff]; omega
+
+/-- The width test on `uint64` with wrapping subtraction (`Upper != 0 && Upper-Lower > 0`) — *not*
+what `isValidRange` does; kept to state how it differs. -/
+def wrapWidthValid (hr : HashRange) : Bool :=
+  !(hr.upper == 0) && decide (0 < (hr.upper + two64 - hr.lower) % two64)
+
+theorem wrapWidthValid_iff (hr : HashRange) (hl : hr.lower < two64) (hu : hr.upper < two64) :
+    wrapWidthValid hr = true ↔ hr.upper ≠ 0 ∧ hr.lower ≠ hr.upper := by
+  unfold wrapWidthValid two64 at *
+  simp only [Bool.and_eq_true, Bool.not_eq_true', beq_eq_false_iff_ne, ne_eq, decide_eq_true_eq]
+  omega
+
 end SumIndex
